@@ -6,9 +6,10 @@ static void mon_read_result(struct DataAccess *obj, _Bool ok) { (void)obj; (void
 static struct TrackSector h_sectors[TS_MAX];
 static unsigned long g_diag;
 static size_t g_k;
+static size_t g_tc_witness;       /* index of the sector a refusal is about (set where the code builds its error text) */
 #define ADDR_LT(a, b) ((a).cylinder < (b).cylinder || ((a).cylinder == (b).cylinder && ((a).head < (b).head || ((a).head == (b).head && (a).record < (b).record))))
 #define TRACKCHECK_LOOP_CONTRACT \
-  __CPROVER_assigns(si_, prev_rec_num, g_diag) \
+  __CPROVER_assigns(si_, prev_rec_num, g_diag, g_tc_witness) \
   __CPROVER_loop_invariant(si_ <= track_sectors_n && g_diag == __CPROVER_loop_entry(g_diag)) \
   __CPROVER_loop_invariant(prev_rec_num.has == (si_ > 0) && (si_ > 0 ==> prev_rec_num.val == h_sectors[si_ - 1].address.record)) \
   __CPROVER_loop_invariant((g_k < si_) ==> (h_sectors[g_k].address.head == side && h_sectors[g_k].address.cylinder == track && h_sectors[g_k].data_n == sector_bytes)) \
@@ -23,11 +24,19 @@ static bool check_track_is_supported(const struct TrackSector *track_sectors, si
 __CPROVER_requires(track_sectors == h_sectors && track_sectors_n <= TS_MAX && g_diag < 1000)
 /* the callers sort the sectors by address first (the function asserts std::is_sorted) */
 __CPROVER_requires((g_k < TS_MAX && g_k + 1 < track_sectors_n) ==> !ADDR_LT(h_sectors[g_k + 1].address, h_sectors[g_k].address))
-__CPROVER_assigns(g_diag)
+__CPROVER_assigns(g_diag, g_tc_witness)
 __CPROVER_ensures(__CPROVER_return_value ==> ((g_k < track_sectors_n) ==> (h_sectors[g_k].address.head == side && h_sectors[g_k].address.cylinder == track &&
                                                                             h_sectors[g_k].data_n == sector_bytes)))
 __CPROVER_ensures(__CPROVER_return_value ==> ((g_k < TS_MAX && g_k + 1 < track_sectors_n) ==> h_sectors[g_k + 1].address.record == h_sectors[g_k].address.record + 1))
-__CPROVER_ensures(!__CPROVER_return_value ==> g_diag > __CPROVER_old(g_diag));
+__CPROVER_ensures(!__CPROVER_return_value ==> g_diag > __CPROVER_old(g_diag))
+/* ... and refused ONLY for such a reason (C05: a track whose sectors all belong to it, are 256 bytes long and are numbered
+   consecutively -- whatever their physical order was, they arrive sorted -- is accepted): the refusal names a sector that is
+   on the wrong side or track, has the wrong size, or does not follow its predecessor's record number by one */
+#define W_ g_tc_witness
+__CPROVER_ensures(!__CPROVER_return_value ==>
+                  (W_ < track_sectors_n && W_ < TS_MAX &&
+                   (h_sectors[W_].address.head != side || h_sectors[W_].address.cylinder != track || h_sectors[W_].data_n != sector_bytes ||
+                    (W_ > 0 && h_sectors[W_].address.record != h_sectors[W_ - 1].address.record + 1))));
 
 void h_trackcheck(void)
 {
